@@ -10,8 +10,8 @@ import random
 
 from . import common
 
-MODULES = ["CoapVerif.Props.C07"]
-GENERATED = ["TcpFraming.lean"]
+MODULES = ["CoapVerif.Props.C07", "CoapVerif.Lemmas.FramingCodecLink"]
+GENERATED = ["TcpFraming.lean", "CodecConsts.lean", "OptionDefs.lean"]
 SIGNALS = [225, 226, 227, 228, 229]
 
 
